@@ -994,12 +994,26 @@ def gen_maps(rng, debug=True, perkey=False):
             nabs += 4
         else:
             m = nmf; nmf += 1
-            defs.append(f"mfn M{m} {rng.randint(1, 2)} {rng.randint(0, 1)} {rng.choice([2, 3])} {rng.randint(0, 1)} {rng.randint(0, 3)}")
+            # API variant of the operator (the part of the type token after the dot; the model ignores the token, the
+            # harness calls the wrapper API: incr_mapi / incr_map / incr_filter_map, the ClosureFold builder).  Drawn from
+            # a side generator so that the main stream (and every seed recorded so far) is unchanged.
+            rng2 = random.Random(hash(rng.getstate()[1]))
+            api = rng2.choice(["", "", "mapi", "map", "fmap"])
+            p3 = 9 if api in ("mapi", "map") and rng2.random() < 0.9 else None     # these need a family that never filters
+            mfn = [rng.randint(1, 2), rng.randint(0, 1), rng.choice([2, 3]), rng.randint(0, 1), rng.randint(0, 3)]
+            if p3 is not None:
+                mfn[3] = p3
+            defs.append("mfn M%d %d %d %d %d %d" % (m, *mfn))
             kind = rng.choice(["fm", "fm", "fold", "fold", "merge", "part"])
             if kind == "fm":
-                acts.append(f"mapop fm {rng.choice(['bt', 'rc', 'ord'])} M{m} n{src}")
+                ty = rng.choice(['bt', 'rc', 'ord'])
+                acts.append(f"mapop fm {ty}{'.' + api if api else ''} M{m} n{src}")
+                count("fm_api_" + (api or "filter_mapi"))
             elif kind == "fold":
-                acts.append(f"mapop fold {rng.choice(['bt', 'rc', 'ord'])} M{m} {rng.randint(0, 1)} {rng.randint(0, 1)} n{src}")
+                ty = rng.choice(['bt', 'rc', 'ord'])
+                fapi = rng2.choice(["", "", "cf", "cfn"])
+                acts.append(f"mapop fold {ty}{'.' + fapi if fapi else ''} M{m} {rng.randint(0, 1)} {rng.randint(0, 1)} n{src}")
+                count("fold_api_" + (fapi or "direct"))
             elif kind == "merge":
                 acts.append(f"mapop merge {rng.choice(['bt', 'ord'])} M{m} n0 n1")
             else:
